@@ -104,7 +104,26 @@ def features(recs):
     return f
 
 
+def at_scale_case(ctx, g, rng):
+    """every writer on a converter far above any plausible batch size or threshold"""
+    api, S = ctx.api, probe.S
+    n = rng.choice([300, 1000]) if ctx.tier == "thorough" else 120
+    recs = gen.large_records(rng, n)
+    with probe.monitor_mode():
+        c = api.Converter([gen.mk_record(api, r) for r in recs])
+    tmp = ctx.tmp
+    call(api.write_extended_prefix_map, c, tmp / "big.json")
+    for syn in (False, True):
+        call(api.write_jsonld_context, c, tmp / "bigj.json", include_synonyms=syn, expand=rng.random() < 0.5)
+        call(api.write_shacl, c, tmp / "bigs.ttl", include_synonyms=syn)
+    call(api.write_tsv, c, tmp / "bigt.tsv")
+    S.counters[f"wl:at-scale:n{n}"] += 1
+    probe.note_key(f"at-scale:n{n}", True)
+
+
 def run_case(ctx, g, rng):
+    if g % 100 == 100 - 1:
+        return at_scale_case(ctx, g, rng)
     api, S = ctx.api, probe.S
     tmp = ctx.tmp
     # EPM: arbitrary Unicode
